@@ -31,7 +31,7 @@ pub fn select(reg: &Registry) -> &'static Selected {
 /// one libFuzzer iteration; aborts the process (after saving the choice vector) on a violation
 pub fn one_input(reg: &Registry, data: &[u8]) {
     let sel = select(reg);
-    if data.len() > 4096 {
+    if data.len() > 1536 {
         return;
     }
     let src = Source::bytes(data);
@@ -69,7 +69,7 @@ pub fn corpus_main(reg: &Registry, args: &[String]) -> i32 {
         let mut src = Source::random(PrngKind::from_env_or_seed(seed), mix(seed, k));
         let _case = (prop.spaces[si].decode)(&mut src);
         let bytes = src.to_bytes();
-        if bytes.len() <= 4096 {
+        if bytes.len() <= 1536 {
             std::fs::write(dir.join(format!("seed-{:04}", k)), bytes).ok();
         }
     }
